@@ -334,11 +334,15 @@ def rule_literal_escapes(ctx):
     acc = H.path_local(tail) if tail is not None else None
     loops = [x for x in H.walk(hw["body"]) if H.kind(x) == "Match" and H.is_for(x)]
     in_loop = set(id(y) for lp in loops for y in H.walk(lp))
+    # the iterator form: a closure handed to an adaptor of `text.chars()` (for_each / map / flat_map / fold ..)
+    iter_calls = [x for x in H.walk(hw["body"]) if H.kind(x) == "MethodCall" and "chars" in A.sexpr(x["recv"], None)
+                  and any(H.kind(H.peel(y)) == "Closure" for y in x["args"])]
+    in_loop |= set(id(y) for c in iter_calls for y in H.walk(c))
     outside_conditionals = [x for x in H.walk(hw["body"]) if H.kind(x) in ("If", "Match") and id(x) not in in_loop
                             and not (H.kind(x) == "Match" and (H.is_for(x) or x.get("src")))]
-    over_chars = any("chars" in A.sexpr(H.for_parts(lp)[1], None) for lp in loops)
-    ctx.check(not rets and acc is not None and not outside_conditionals and over_chars and mw is not None and id(mw) in in_loop, rule,
-              "string:writer-total", "quote_string has a path that does not take every character through the escape table (%s): a fast "
+    over_chars = any("chars" in A.sexpr(H.for_parts(lp)[1], None) for lp in loops) or bool(iter_calls)
+    ctx.check(not rets and (acc is not None or bool(iter_calls)) and not outside_conditionals and over_chars and mw is not None
+              and id(mw) in in_loop, rule, "string:writer-total", "quote_string has a path that does not take every character through the escape table (%s): a fast "
               "path that forgets one of the escaped characters (the delimiter) prints a literal that reads back as different text"
               % ("early return" if rets else "conditional outside the character loop" if outside_conditionals else
                  "result is not the accumulated text" if acc is None else "no loop over the characters"),
